@@ -292,6 +292,8 @@ func (fx *Fx) runLoop(st *State, lp *loopParts) {
 	fx.jumps = fx.jumps[:len(fx.jumps)-1]
 	back := mergeStates(c, append([]*State{bodySt}, jc.continues...))
 	if !back.dead {
+		vb := c.oblige(back, "vacuity", tag+".body", "true", "some execution completes an iteration of the loop", fx.w.pos(lp.node.Pos()))
+		vb.Vacuity = true
 		if lp.postF != nil {
 			lp.postF(back)
 		}
